@@ -153,6 +153,7 @@ func VerifC18_FstreeQuery() {
 		}
 	}
 	rt.FsFaults(1)
+	rt.FsStatFromWalk(true) // stat agrees with the registered entries (the root is a directory)
 	q := query.New("t:" + prefix)
 	if _, err := q.Check(); err != nil {
 		return
@@ -176,6 +177,10 @@ func VerifC18_FstreeQuery() {
 		op := rt.FsOp(i)
 		if op == "readfile" {
 			rt.Assert(inside(root, rt.FsPath(i)), "fstreequery/reads-inside-root")
+		}
+		if op == "walk" {
+			// the directory walk starts at the root or below it
+			rt.Assert(inside(root, rt.FsPath(i)), "fstreequery/walk-inside-root")
 		}
 	}
 	rt.Assert(!rt.NativeEscapes(), "fstreequery/reads-inside-root")
